@@ -1,6 +1,8 @@
 package harness
 
 import (
+	"regexp"
+	"encoding/json"
 	"fmt"
 	"sort"
 	"strings"
@@ -272,6 +274,21 @@ func auditC13(sc *Scenario, t *Truth, c *Call, a *Audit, cur int, others []strin
 				fmt.Sprintf("%s the configuration of %s says name=%q replica_name=%q replica_num=%d replicas=%d; expected s/%s/%d/%d", where, nm, inf.Name, inf.ReplicaName, inf.ReplicaNum, inf.Replicas, nm, k, cur), c.RetSeq)
 			return want, true
 		}
+		if fr, ok := a.FreshInfos[nm]; ok && a.FreshErr == "" {
+			// "the same set a fresh load with replicas: n would produce"
+			cmp := func(x InfoLite) string {
+				b, _ := json.Marshal(struct {
+					C, E, W string
+					A       []string
+					R, L    *ProbeLite
+				}{x.Command, x.Executable, x.WorkingDir, x.Args, x.Readiness, x.Liveness})
+				return string(b)
+			}
+			if g, w := stripTmp(cmp(inf)), stripTmp(cmp(fr)); g != w {
+				add("replica-config-differs-from-fresh-load", "", fmt.Sprintf("%s the configuration of %s is %s; a fresh load with replicas: %d gives it %s", where, nm, g, cur, w), c.RetSeq)
+				return want, true
+			}
+		}
 		if ps := sc.Project.Proc("s"); ps != nil && ps.Readiness != nil && (inf.Readiness == nil || !hasStr(strings.Fields(inf.Readiness.Exec), tok)) {
 			got := "<none>"
 			if inf.Readiness != nil {
@@ -451,6 +468,11 @@ func genC13(r *R, sc *Scenario, tier string) {
 		r0 = Pick(r, 98, 99, 100, 101)
 	}
 	s := &ProcSpec{Name: "s", Token: "s.{{.PC_REPLICA_NUM}}", Replicas: r0}
+	if r.P(500) {
+		// (its exec probe, which has no directory of its own, inherits this one)
+		sc.Dirs = append(sc.Dirs, "d1")
+		s.WorkingDir = "d1"
+	}
 	if r.P(300) {
 		s.Description = "replica {{.PC_REPLICA_NUM}} of s"
 	}
@@ -579,3 +601,8 @@ func genC13(r *R, sc *Scenario, tier string) {
 		sc.Arm = "scale"
 	}
 }
+
+var tmpRunDir = regexp.MustCompile(`/[^" ]*/simrun-[0-9]+`)
+
+// stripTmp removes the run's scratch directory from a text (it differs from run to run)
+func stripTmp(s string) string { return tmpRunDir.ReplaceAllString(s, "@TMP@") }
